@@ -59,12 +59,12 @@ func suiteC14(c *Ctx) {
 			sys = append(sys, 9)
 		}
 		steps = append(steps,
-			Step{Op: "CSQ", Sid: g.sessionID(), Sys: sys},                                              // base+0
-			Step{Op: "CDQ", Sid: g.sessionID(), Sys: sys},                                              // base+1
-			Step{Op: "CLQ", S: sys},                                                                    // base+2
-			Step{Op: "CPQ", Sid: g.sessionID(), Sys: sys},                                              // base+3
+			Step{Op: "CSQ", Sid: g.sessionID(), Sys: sys},                                                 // base+0
+			Step{Op: "CDQ", Sid: g.sessionID(), Sys: sys},                                                 // base+1
+			Step{Op: "CLQ", S: sys},                                                                       // base+2
+			Step{Op: "CPQ", Sid: g.sessionID(), Sys: sys},                                                 // base+3
 			Step{Op: "CRJ", Sid: g.sessionID(), B1: byte(st), B2: byte(255 - st), Sys: sys, B3: byte(st)}, // base+4
-			Step{Op: "CN", S: []byte{1, 2, 3, 4, byte(st % 3), byte(st % 11), 5, 6, 7, 8}},             // base+5
+			Step{Op: "CN", S: []byte{1, 2, 3, 4, byte(st % 3), byte(st % 11), 5, 6, 7, 8}},                // base+5
 		)
 		for k := 0; k < 6; k++ {
 			steps = append(steps, Step{Op: "CSR", Ref: base + k, B1: byte(st)})
